@@ -175,6 +175,50 @@ def param_job(args):
     return out
 
 
+def large_job(args):
+    """random-parameter runs whose total size crosses the thresholds at which an implementation might start to work in
+    blocks: a long time grid and many iterations (one fixed answer pattern per job, not an enumeration)"""
+    name, d, npts, iteration, entry = args
+    out = {"name": name, "executions": 0, "violations": [], "n_violations": 0, "outcomes": set()}
+    env.load_pygom()
+    grid = np.linspace(0.01, 3.0, npts)
+    x0 = [3.0, 1.0, 0.0][:len(d["states"])]
+    s = sched.Sched([1 if (7 * i + 3) % 5 < 2 else 0 for i in range(iteration)], horizon=4 * iteration + 10)
+    m, _ = build.build(d)
+    m.initial_values = (np.array(x0), 0.0)
+    fixed = dict(zip(d["params"], stoch.theta_for(d)))
+    pn = d["params"][0]
+
+    def sampler(n, *a, **kw):
+        v = PVALS[pn][s.choose(2)]
+        s.log.append(("param", pn, v))
+        return v if n == 1 else np.array([v] * n)
+    pdict = dict(fixed)
+    pdict[pn] = (sampler, (2.0, 0.25))
+    try:
+        with sched.owned(s):
+            m.parameters = pdict
+            Y, runs = (m.solve_determ(grid, iteration=iteration, full_output=True) if entry == "solve_determ"
+                       else m.simulate_param(grid, iteration, full_output=True))
+    except Exception as e:
+        out["violations"].append({"what": "raised", "detail": {"error": "%s: %s" % (type(e).__name__, e)}})
+        out["n_violations"] = 1
+        return out
+    out["executions"] = 1
+    Y = np.asarray(Y)
+    if len(runs) != iteration:
+        out["violations"].append({"what": "number-of-runs", "detail": {"got": len(runs), "want": iteration}})
+    else:
+        mean = np.dstack([np.asarray(r) for r in runs]).mean(axis=2)
+        if Y.shape != mean.shape or not np.allclose(Y, mean, rtol=1e-12, atol=1e-14):
+            out["violations"].append({"what": "mean-is-not-the-mean-of-the-returned-runs",
+                                      "detail": {"grid_points": npts, "iterations": iteration, "maxdiff": float(np.max(np.abs(Y - mean))) if Y.shape == mean.shape else None}})
+        if len({np.asarray(r).tobytes() for r in runs}) < 2:
+            out["violations"].append({"what": "large-job-degenerate", "detail": {}})
+    out["n_violations"] = len(out["violations"])
+    return out
+
+
 # --------------------------------------------------------------------- real seeds
 def seed_job(args):
     name, d, mode, seeds, kind = args
@@ -267,6 +311,14 @@ def main(argv=None):
         pex += r["executions"]
         for v in r["violations"]:
             run.violation({"leg": "random-parameters", "what": v["what"], "entry": j[4]}, {"job": j[0], "violation": v})
+    lj = [("large/%s/%dx%d" % (entry, npts, it), sir, npts, it, entry) for entry in ("solve_determ", "simulate_param")
+          for npts, it in ([(6001, 100)] if quick else [(6001, 100), (2501, 257), (20001, 37)])]
+    lres = pool.pmap(large_job, lj, chunksize=1)
+    for r, j in zip(lres, lj):
+        pex += r["executions"]
+        for v in r["violations"]:
+            run.violation({"leg": "random-parameters", "what": v["what"], "entry": j[4], "size": "large"}, {"job": j[0], "violation": v})
+    run.count("large random-parameter runs (long grid x many iterations)", len(lj))
     pout = sum(r["n_outcomes"] for r in pres)
     run.count("random-parameter executions", pex)
     # real seeds
@@ -293,7 +345,8 @@ def main(argv=None):
                 "generator built, and a second call on the same object with the same answers returns identical output; "
                 "random parameters: every answer sequence (2-value menu) for 1-2 random parameters given as frozen "
                 "distribution / (sampler,args) / (sampler,kwargs), 1-3 iterations, solve_determ and simulate_param: mean == "
-                "mean of returned runs exactly and each run is the solution for its drawn parameters; (c) real seeds %s: "
+                "mean of returned runs exactly and each run is the solution for its drawn parameters; the same on runs whose size crosses "
+                "blocking thresholds (6001-point grid x 100 iterations, one fixed answer pattern); (c) real seeds %s: "
                 "same seed twice identical, all different seeds pairwise different (raw paths incl. event times)" % (
                     bound, len(cfgs), "%d..%d" % (block[0], block[-1])),
         "states": ex, "transitions": draws, "traces_validated_against_impl": ex + pex,
